@@ -151,8 +151,10 @@ class Mir:
             if re.search(r'\{closure#\d+\}$', name) and ptypes:
                 hm = re.match(r'&?(?:mut )?(\{closure@[^}]*\})', ptypes[0])
                 if hm: self.closures[hm.group(1)] = name
-        for m in re.finditer(r'^const ([^\n]*?): ([^\n]*?) = \{\n(.*?)^\}', txt, re.S | re.M):
+        for m in re.finditer(r'^const ([^\n]*?::promoted\[\d+\]): ([^\n]*?) = \{\n(.*?)^\}', txt, re.S | re.M):
             self.consts[m.group(1)] = Fn(m.group(1), [], [], m.group(2), m.group(3))
+        for m in re.finditer(r'^const ((?:<impl at [^>]*>|[^\n:]|::)*?): ([^\n]*?) = \{\n(.*?)^\}', txt, re.S | re.M):
+            self.consts.setdefault(m.group(1), Fn(m.group(1), [], [], m.group(2), m.group(3)))
         for m in re.finditer(r'^static (?:mut )?([^\n]*?): ([^\n]*?) = \{\n(.*?)^\}', txt, re.S | re.M):
             self.consts[m.group(1)] = Fn(m.group(1), [], [], m.group(2), m.group(3))
         for m in re.finditer(r'^const (\S+): [^\n]*? = (const [^\n]*);$', txt, re.M):
@@ -309,7 +311,7 @@ _RE_GOTO = re.compile(r'goto -> bb(\d+)$')
 _RE_SWITCH = re.compile(r'switchInt\((.*)\) -> \[(.*)\]$')
 _RE_ASSERT = re.compile(r'assert\((!?)(.*?), "(.*?)"(, .*)?\) -> \[success: bb(\d+), .*\]$')
 _RE_DROP = re.compile(r'drop\((.*)\) -> \[return: bb(\d+), .*\]$')
-_RE_CALLTAIL = re.compile(r'(.*\)) -> (?:\[return: bb(\d+), .*\]|unwind .*)$')
+_RE_CALLTAIL = re.compile(r'(.*\)) -> (?:\[return: bb(\d+), .*\]|unwind .*|bb\d+)$')
 _RE_ASSIGN = re.compile(r'(\S+|\(.*?\)) = (.*)$')
 _NOPS = ('StorageLive', 'StorageDead', 'nop', 'FakeRead', 'PlaceMention', 'Retag', 'AscribeUserType', 'Coverage', 'Deinit',
          'ConstEvalCounter', 'BackwardIncompatibleDropHint')
@@ -921,22 +923,24 @@ class Interp:
         byref = f.param_types[0].startswith('&')
         return self.exec_fn(f, [Ref(Box_(clo)) if byref else clo] + list(args))
     def lazy_static(self, name):
+        """value behind a lazy_static!: bodies of one module share a name, so initialisers are bound to their static
+        through the `&NAME` parameter of the matching `deref` body (same file order)"""
         if name not in self.statics:
-            prefix = re.sub(r'::\w+$', '', name)
-            cands = [n for n in self.fns if n.startswith(prefix + '::<impl at') and n.endswith('::deref::__static_ref_initialize')]
-            allf = []
-            for n in cands:
-                allf.append(self.fns[n]); allf.extend(self.mir.dups.get(n, [])[1:])
-            # bind initialisers to statics: the deref impl takes `&NAME`; file order of `deref` and its initialiser agree
-            derefs = []
-            for n in self.fns:
-                if n.startswith(prefix + '::<impl at') and n.endswith('::deref'):
-                    derefs.append(self.fns[n]); derefs.extend(self.mir.dups.get(n, [])[1:])
-            idx = None
-            for i, d in enumerate(derefs):
-                if d.param_types and d.param_types[0] == '&' + name: idx = i
-            if idx is None or idx >= len(allf): raise Unsupported('lazy static ' + name)
-            self.statics[name] = Ref(Box_(self.exec_fn(allf[idx], [])))
+            if not hasattr(self, '_lazy_index'):
+                idx = {}
+                derefs, inits = {}, {}
+                for n, f in self.fns.items():
+                    m = re.match(r'(.*)::<impl at [^>]*lazy_static[^>]*>::deref(::__static_ref_initialize)?$', n)
+                    if not m: continue
+                    lst = [f] + self.mir.dups.get(n, [])[1:]
+                    (inits if m.group(2) else derefs).setdefault(m.group(1), []).extend(lst)
+                for pre, ds in derefs.items():
+                    for k, d in enumerate(ds):
+                        if k < len(inits.get(pre, [])) and d.param_types: idx[d.param_types[0]] = inits[pre][k]
+                self._lazy_index = idx
+            f = self._lazy_index.get('&' + name)
+            if f is None: raise Unsupported('lazy static ' + name)
+            self.statics[name] = Ref(Box_(self.exec_fn(f, [])))
         return self.statics[name]
 
 _RE_INTLIT = re.compile(r'(-?\d+)_(?:u8|u16|u32|u64|u128|usize|i8|i16|i32|i64|i128|isize)')
